@@ -246,36 +246,52 @@ func (m *v05Model) makeRecord(ch, variant, tag int) *DataRecord {
 	return rec
 }
 
-// publish pushes one record through the real AnalyzeData + PublishData and notes what the files must hold.
+// publish pushes n records through the real AnalyzeData + PublishData in ONE call (a channel that
+// triggers several times within one data block hands PublishData a batch) and notes what the files must hold.
 func (m *v05Model) publish(x *vexp.X, ch int, accepted bool) (string, string) {
+	return m.publishN(x, ch, 1, accepted)
+}
+
+func (m *v05Model) publishN(x *vexp.X, ch int, n int, accepted bool) (string, string) {
 	nv := v05NVariants
 	if ch == 1 {
 		nv++
 	}
-	variant := (m.rot + m.count[ch]) % nv
-	m.count[ch]++
-	tag := m.tag
-	m.tag++
-	rec := m.makeRecord(ch, variant, tag)
 	dsp := m.ds.processors[ch]
-	recs := []*DataRecord{rec}
-	dsp.AnalyzeData(recs)
-	e := v05Exp{tag: tag, frame: int64(rec.trigFrame), nanos: rec.trigTime.UnixNano(), npre: rec.presamples,
-		ptMean: float32(rec.pretrigMean), ptDelta: float32(rec.pretrigDelta), resid: float32(rec.residualStdDev)}
-	for _, v := range rec.data {
-		e.data = append(e.data, uint16(v))
+	var recs []*DataRecord
+	var tags []int
+	for k := 0; k < n; k++ {
+		variant := (m.rot + m.count[ch]) % nv
+		if n > 1 && variant >= v05NVariants {
+			variant = 0 // the short-record variant of channel 1 is only used alone
+		}
+		m.count[ch]++
+		tag := m.tag
+		m.tag++
+		recs = append(recs, m.makeRecord(ch, variant, tag))
+		tags = append(tags, tag)
 	}
-	for _, c := range rec.modelCoefs {
-		e.coefs = append(e.coefs, float32(c))
+	dsp.AnalyzeData(recs)
+	var exps []v05Exp
+	for k, rec := range recs {
+		e := v05Exp{tag: tags[k], frame: int64(rec.trigFrame), nanos: rec.trigTime.UnixNano(), npre: rec.presamples,
+			ptMean: float32(rec.pretrigMean), ptDelta: float32(rec.pretrigDelta), resid: float32(rec.residualStdDev)}
+		for _, v := range rec.data {
+			e.data = append(e.data, uint16(v))
+		}
+		for _, c := range rec.modelCoefs {
+			e.coefs = append(e.coefs, float32(c))
+		}
+		exps = append(exps, e)
 	}
 	if err := dsp.DataPublisher.PublishData(recs); err != nil {
-		return fmt.Sprintf("PublishData(channel %d, tag %d) failed: %v", ch, tag, err), "publish-error"
+		return fmt.Sprintf("PublishData(channel %d, tags %v) failed: %v", ch, tags, err), "publish-error"
 	}
 	m.src.drain(ch)
-	x.Logf("   record tag %d ch%d variant %d len %d frame %d t=%s accepted=%v", tag, ch, variant, len(rec.data), e.frame, rec.trigTime.Format(time.RFC3339Nano), accepted)
+	x.Logf("   %d record(s) tags %v ch%d in one PublishData call, accepted=%v", n, tags, ch, accepted)
 	if accepted {
 		r := m.runs[len(m.runs)-1]
-		r.exp[ch] = append(r.exp[ch], e)
+		r.exp[ch] = append(r.exp[ch], exps...)
 	}
 	return "", ""
 }
@@ -308,16 +324,19 @@ const (
 	v05OpPause
 	v05OpUnpause
 	v05OpRestart
+	v05OpBatch0
 	v05NOps
 )
 
-var v05OpNames = []string{"rec0", "rec1", "flush", "PAUSE", "UNPAUSE", "STOP+START"}
+var v05OpNames = []string{"rec0", "rec1", "flush", "PAUSE", "UNPAUSE", "STOP+START", "batch0x3"}
 
 func (m *v05Model) apply(x *vexp.X, op int) (string, string) {
 	x.Steps++
 	switch op {
 	case v05OpRec0, v05OpRec1:
 		return m.publish(x, op, m.active && !m.paused)
+	case v05OpBatch0:
+		return m.publishN(x, 0, 3, m.active && !m.paused)
 	case v05OpFlush:
 		x.Logf("flush")
 		for _, dsp := range m.ds.processors {
